@@ -1,10 +1,145 @@
-(* Props/C01.v -- property C01 (placeholder while the pipeline is brought up). *)
+(* Props/C01.v -- property C01: ensemble function values are the normalized weighted estimate over realizations.
+   Only statements; each is closed by a lemma of Proofs/Ensemble.v.  All statements are about the executable
+   definitions of Model/Ensemble.v that Check/Chk_C01.v evaluates against the real EnsembleEvaluator.
+
+   Vocabulary (Model/Ensemble.v):
+     f : list oQ                 one function column, one entry per realization (None = NaN)
+     wrow : list Q               the weights in force for that function (configured weights or a filter's output)
+     failed : list bool          realizations.failed_realizations;  keep_of failed = its negation
+     gather (keep_of failed) l   the sub-list of l at the surviving realizations
+     estimate k f wrow failed    _calculate_estimated_functions for one function: np.where(failed, 0, w); w /= w.sum();
+                                 estimator k;  FOk v (Stddev: v is the VARIANCE) | FAbort (TOO_FEW_REALIZATIONS)
+                                 | FDivZero (no surviving weight: 0/0, outside the quantifier)
+     dot, qsum                   plain dot product and sum over Q (Base/Num.v) *)
 From Coq Require Import String QArith List Bool Arith ZArith.
-From Ropt Require Import Base.Num Base.ListX Model.Ensemble Proofs.Ensemble.
+From Ropt Require Import Base.Num Base.ListX Gen.Generated Model.Ensemble Proofs.Ensemble.
 Import ListNotations.
 Open Scope Q_scope.
 
-Theorem C01_weighted_objective : forall ow objs, weighted_objective ow objs = rdot ow objs.
+(* the mean: the weighted mean over the survivors, weights renormalised by their sum over the survivors; for every
+   column, weight row and failure mask; without surviving weight the value is undefined (never a number) *)
+Theorem C01_mean_spec : forall f wrow failed, length wrow = length failed ->
+  let ws := gather (keep_of failed) wrow in
+  let fs := nan_to_num (gather (keep_of failed) f) in
+  (qsum ws == 0 -> estimate Mean f wrow failed = FDivZero) /\
+  (~ qsum ws == 0 -> exists v, estimate Mean f wrow failed = FOk v /\ v == dot fs ws / qsum ws).
+Proof. exact estimate_mean_spec. Qed.
+
+(* the standard deviation (as its square): N/(N-1) * sum_i w^_i (f_i - m)^2 over the survivors, w^ = w / sum w,
+   m the weighted mean, N the number of survivors with positive weight (non-negative weights, at least two of them
+   positive on the survivors) *)
+Theorem C01_var_spec : forall f wrow failed, length wrow = length failed -> Forall (fun x => 0 <= x) wrow ->
+  let ws := gather (keep_of failed) wrow in
+  let fs := nan_to_num (gather (keep_of failed) f) in
+  let S := qsum ws in
+  let N := nat_Q (count_pos ws) in
+  let m := dot fs ws / S in
+  (2 <= count_pos ws)%nat ->
+  exists v, estimate Stddev f wrow failed = FOk v /\
+            v == N / (N - 1) * (dot (map (fun x => sq (x - m)) fs) ws / S).
+Proof. exact estimate_var_spec. Qed.
+
+(* the stddev estimator aborts (TOO_FEW_REALIZATIONS) iff the surviving weights can be normalised and fewer than
+   _MIN_STDDEV_REALIZATIONS (regenerated from the source: 2) of them are non-zero *)
+Theorem C01_var_too_few : forall f wrow failed, length wrow = length failed ->
+  let ws := gather (keep_of failed) wrow in
+  estimate Stddev f wrow failed = FAbort <-> ~ qsum ws == 0 /\ (count_nonzero ws < min_stddev_realizations)%nat.
+Proof. exact estimate_var_status. Qed.
+
+(* "the per-realization values the evaluator returned": NaN propagation leaves the rows of the survivors untouched *)
+Theorem C01_survivor_values : forall rows, Forall (fun oc : list oQ * list oQ => fst oc <> []) rows ->
+  gather (keep_of (failed_fn (propagate_nan rows))) (propagate_nan rows) =
+  gather (keep_of (failed_fn (propagate_nan rows))) rows.
+Proof. exact survivors_untouched. Qed.
+
+(* the weighted objective is the sum of objective weight times objective value *)
+Theorem C01_weighted_objective : forall ow objs, weighted_objective ow objs == dot ow objs.
 Proof. exact weighted_objective_dot. Qed.
 
+(* factorisation: function j is the estimator mapped to j applied to column j, the weight row in force for j and the
+   failure flags -- other columns, other weight rows and other estimators do not occur on the right-hand side *)
+Theorem C01_factorisation : forall ests emap cfgw wmat rows failed j, (j < length emap)%nat ->
+  nth j (estimate_all ests emap cfgw wmat rows failed) FNoEst =
+    match nth_error ests (nth j emap 0%nat) with
+    | Some k => estimate k (column j rows) (in_force cfgw wmat j) failed
+    | None => FNoEst
+    end.
+Proof. exact estimate_all_nth. Qed.
+
+(* hence: "nothing else influences these numbers" -- change the other columns, the other weight rows and the
+   estimators of the other functions at will, function j keeps its value *)
+Theorem C01_nothing_else : forall ests emap emap' cfgw wmat wmat' rows rows' failed j,
+  (j < length emap)%nat -> (j < length emap')%nat ->
+  nth j emap 0%nat = nth j emap' 0%nat -> column j rows = column j rows' ->
+  in_force cfgw wmat j = in_force cfgw wmat' j ->
+  nth j (estimate_all ests emap cfgw wmat rows failed) FNoEst =
+  nth j (estimate_all ests emap' cfgw wmat' rows' failed) FNoEst.
+Proof. exact estimate_all_local. Qed.
+
+(* weights in force after _calculate_filtered_realization_weights (fouts = what the configured filters returned):
+   the row of function j is the output of filter k when the index map sends j to a configured filter k, and the
+   configured realization weights otherwise -- also for unfiltered functions that sit next to filtered ones (F01);
+   objectives and constraints alike *)
+Theorem C01_rows_in_force : forall c fouts ow cw, filtered_weights c fouts = FiltOk ow cw ->
+  (forall j, (j < cfg_no c)%nat ->
+     (forall k, (k < length fouts)%nat -> mapped_to (cfg_ofm c) j k ->
+        exists w, nth_error fouts k = Some (FW w) /\ in_force (cfg_w c) ow j = w) /\
+     ((forall k, (k < length fouts)%nat -> ~ mapped_to (cfg_ofm c) j k) -> in_force (cfg_w c) ow j = cfg_w c)) /\
+  (forall j, (j < cfg_nc c)%nat ->
+     (forall k, (k < length fouts)%nat -> mapped_to (cfg_cfm c) j k ->
+        exists w, nth_error fouts k = Some (FW w) /\ in_force (cfg_w c) cw j = w) /\
+     ((forall k, (k < length fouts)%nat -> ~ mapped_to (cfg_cfm c) j k) -> in_force (cfg_w c) cw j = cfg_w c)).
+Proof. exact rows_in_force. Qed.
+
+(* batch layout: the rows requested from the evaluator are the full product (vector, realization), vector-major,
+   and cutting the returned rows into blocks gives, for every vector, exactly its own realizations in order *)
+Theorem C01_layout : forall B R,
+  layout_functions B R = list_prod (seq 0 B) (seq 0 R) /\
+  forall (A : Type) (ev : nat -> nat -> A), eval_batch ev B R = map (eval_single ev R) (seq 0 B).
+Proof. intros B R. split; [apply layout_functions_product | intros A ev; apply eval_batch_spec]. Qed.
+
+(* batch invariance: for every batch size, realization count and evaluator that is a function of (vector,
+   realization), the result reported for vector b of a batch is the result of evaluating vector b alone *)
+Theorem C01_batch_invariance : forall c (ev : nat -> nat -> list oQ * list oQ) B R fouts rs b, (b < B)%nat ->
+  calculate_sets c (eval_batch ev B R) fouts = Done rs ->
+  exists r, nth_error rs b = Some r /\
+            calculate_sets c (eval_batch (fun _ => ev b) 1 R) [nth b fouts []] = Done [r].
+Proof. exact batch_invariance. Qed.
+
+(* non-vacuity: three realizations with weights 1/2, 1/4, 1/4, the second one failed: mean (2*1/2 + 4*1/4)/(3/4) = 8/3,
+   variance 2 * (2/3 * (2 - 8/3)^2 + 1/3 * (4 - 8/3)^2) = 16/9; with one survivor the stddev estimator aborts; an
+   unfiltered objective next to a filtered one keeps the configured weights; a batch of two vectors *)
+Example C01_example :
+  let f := [Some (Q_ 2 1); None; Some (Q_ 4 1)] in
+  let wrow := [Q_ 1 2; Q_ 1 4; Q_ 1 4] in
+  let failed := [false; true; false] in
+  let c := {| cfg_w := wrow; cfg_ow := [Q_ 1 4; Q_ 3 4]; cfg_nc := 0; cfg_rmin := 1; cfg_pmin := 1;
+              cfg_ests := [Mean; Stddev]; cfg_oem := Some [0; 1]%nat; cfg_cem := None;
+              cfg_ofm := Some [(-1)%Z; 0%Z]; cfg_cfm := None |} in
+  length wrow = length failed /\ Forall (fun x => 0 <= x) wrow /\
+  ~ qsum (gather (keep_of failed) wrow) == 0 /\ (2 <= count_pos (gather (keep_of failed) wrow))%nat /\
+  fres_eq (estimate Mean f wrow failed) (FOk (Q_ 8 3)) /\
+  fres_eq (estimate Stddev f wrow failed) (FOk (Q_ 16 9)) /\
+  estimate Stddev f wrow [false; true; true] = FAbort /\
+  estimate Mean f wrow [true; true; true] = FDivZero /\
+  filtered_weights c [FW [0; 0; 1]] = FiltOk (Some [wrow; [0; 0; 1]]) None /\
+  mapped_to (cfg_ofm c) 1 0 /\
+  eval_batch (fun b r => (b, r)) 2 3 = [[(0, 0); (0, 1); (0, 2)]; [(1, 0); (1, 1); (1, 2)]]%nat.
+Proof.
+  cbv zeta. split; [reflexivity|]. split; [repeat constructor; discriminate|].
+  split; [vm_compute; discriminate|]. split; [vm_compute; repeat constructor|].
+  split; [vm_compute; reflexivity|]. split; [vm_compute; reflexivity|].
+  split; [vm_compute; reflexivity|]. split; [vm_compute; reflexivity|]. split; [vm_compute; reflexivity|].
+  split; [eexists; split; reflexivity | vm_compute; reflexivity].
+Qed.
+
+Print Assumptions C01_mean_spec.
+Print Assumptions C01_var_spec.
+Print Assumptions C01_var_too_few.
+Print Assumptions C01_survivor_values.
 Print Assumptions C01_weighted_objective.
+Print Assumptions C01_factorisation.
+Print Assumptions C01_nothing_else.
+Print Assumptions C01_rows_in_force.
+Print Assumptions C01_layout.
+Print Assumptions C01_batch_invariance.
